@@ -217,15 +217,18 @@ def mixed_case(rec, pvl, config, key):
 
 def shard(i, n, tier, seed, rec, hb):
     pvl = common.import_pvl()
-    for config in MIXED:
-        for j in range(i, 320 if tier == "quick" else 8000, n):
-            hb.beat()
-            mixed_case(rec, pvl, config, f"C04-mixed-{seed}-{config}-{j}")
     per = 1200 if tier == "quick" else 40000
-    for reader in gt.READERS:
-        for j in range(i, per, n):
-            hb.beat()
-            case(rec, pvl, reader, f"C04-{seed}-{reader}-{j}")
+    # which dialect a worker uses first differs from shard to shard
+    blocks = [("mixed", c) for c in MIXED] + [("reader", r) for r in gt.READERS]
+    for kind, which in common.rotated(blocks, i * 3):
+        if kind == "mixed":
+            for j in range(i, 320 if tier == "quick" else 8000, n):
+                hb.beat()
+                mixed_case(rec, pvl, which, f"C04-mixed-{seed}-{which}-{j}")
+        else:
+            for j in range(i, per, n):
+                hb.beat()
+                case(rec, pvl, which, f"C04-{seed}-{which}-{j}")
     for k, (name, text) in enumerate(corpus_files(pvl)):
         if k % n != i:
             continue
